@@ -92,6 +92,8 @@ def clause_lines(node):
     """A block node (requires/ensures/...) -> list of (clause_text, tmpl_line)."""
     out = []
     for c in node["children"]:
+        if c["text"].startswith("#"):
+            continue
         txt = [c["text"]]
 
         def rec(n, depth):
@@ -353,6 +355,22 @@ class Expander:
             self.synth_from_impls(rel, src, it)
         if fields is not None:
             self.do_struct_projection(rel, src, it, fields, override)
+            self.out.add("\n\n", ("tmpl", node["line"]))
+            return
+        rename = None
+        for c in node["children"]:
+            if c["text"].startswith("rename "):
+                rename = c["text"].split()[1]
+        if rename:
+            # emit with the item's own name replaced (name clash between crates flattened into one file)
+            mark = len(self.out.segs)
+            self.emit_repo(rel, src, it.start, it.end)
+            done = False
+            for sg in self.out.segs[mark:]:
+                if not done and re.search(r"\b(enum|struct)\s+%s\b" % it.name, sg.text):
+                    sg.text = re.sub(r"\b(enum|struct)\s+%s\b" % it.name, r"\1 " + rename, sg.text, count=1)
+                    done = True
+            self.rewrites.append("%s: item %s renamed to %s in the unit (flattened namespaces)" % (rel, it.name, rename))
             self.out.add("\n\n", ("tmpl", node["line"]))
             return
         if it.kind == "struct":
@@ -805,6 +823,14 @@ class Expander:
             elif w[0] == "fn":
                 it = self.find(items, "fn", w[1].strip(), rel)[0]
                 self.do_fn(rel, src, it, node, None)
+            elif w[0] == "inmod":
+                # wrap the extracted items in a module of the unit (keeps names of different crates/modules apart)
+                self.out.add("pub mod %s {\n    use super::*;\n" % w[1].strip(), ("tmpl", node["line"]))
+                saved = getattr(self, "_modprefix", "")
+                self._modprefix = saved + w[1].strip() + "::"
+                self._walk_nodes(rel, src, items, node["children"])
+                self._modprefix = saved
+                self.out.add("}\n", ("tmpl", node["line"]))
             elif w[0] == "mod":
                 it = self.find(items, "mod", w[1].strip(), rel)[0]
                 kids = [c for c in node["children"] if c["text"].strip() != "wrap"]
